@@ -39,6 +39,21 @@ def generate(rng, tier):
         for _ in range(rng.range(1, 3)):
             body += R.path(rng, n=rng.range(1, 12))
         g["random-paths"].append(case(vb, rc, body))
+    # a second Reset on the same Renderer whose viewBox has the same size but another origin (or the same origin, another size)
+    g["second-reset"] = []
+    for _ in range(600 if tier == "quick" else 20000):
+        vb, rc = R.viewbox(rng), R.rect(rng)
+        f = [C.bits_f32(int(x, 16)) for x in vb]
+        k = rng.below(3)
+        dx, dy = rng.range(-40, 40) / 2.0, rng.range(-40, 40) / 2.0
+        if k == 0:
+            vb2 = [C.fh(f[0] + dx), C.fh(f[1] + dy), C.fh(f[2] + dx), C.fh(f[3] + dy)]
+        elif k == 1:
+            vb2 = [vb[0], vb[1], C.fh(f[2] + abs(dx) + 1), C.fh(f[3] + abs(dy) + 1)]
+        else:
+            vb2 = [C.fh(f[0] + dx), vb[1], C.fh(f[2] + dx), vb[3]]
+        body = R.path(rng, n=rng.range(1, 4)) + ["R"] + vb2 + ["-"] + R.path(rng, n=rng.range(1, 6))
+        g["second-reset"].append(case(vb, rc, body))
     return g
 
 
